@@ -840,6 +840,7 @@ void VM<FO>::do_log_macro(int tid, int opi, Op const& op)
   int const level = static_cast<int>(op.v[2] < 0 ? 0 : (op.v[2] > 8 ? 8 : op.v[2]));
   bool const dynamic = op.v[1] == 1;
   bool const named = op.v[1] == 2;
+  bool const backtrace = op.v[1] == 3;
   std::string pl = payload(static_cast<uint64_t>(op.v[3]), static_cast<size_t>(op.v[4]));
   bool evaluated = false;
   auto ev = [&](int64_t x) -> int64_t
@@ -848,14 +849,18 @@ void VM<FO>::do_log_macro(int tid, int opi, Op const& op)
     this->record(EV_ARG_EVAL, id);
     return x;
   };
-  Ev& inv = record(EV_LOG_INVOKE, id, op.v[0], level, dynamic ? 5 : 4);
+  Ev& inv = record(EV_LOG_INVOKE, id, op.v[0], backtrace ? 9 : level, dynamic ? 5 : 4);
   inv.s = fmtquill::format("#{}# mac {}", id, pl);
   inv.s2 = std::string(named ? "3" : "0") + ",0";
   if (named)
   {
     inv.s2 = "30,0"; // macro site with named arguments (mid, mtext)
   }
-  if (dynamic)
+  if (backtrace)
+  {
+    QUILL_LOG_BACKTRACE(lg, "#{}# mac {}", ev(id), pl);
+  }
+  else if (dynamic)
   {
     QUILL_LOG_DYNAMIC(lg, static_cast<quill::LogLevel>(level), "#{}# mac {}", ev(id), pl);
   }
